@@ -1020,7 +1020,7 @@ def get_item(ip, obj, idx, node):
 
 def link(ip, v, parent, slot):
     '''Make a container obtained from a slot of another container a view of that slot.'''
-    if not isinstance(v, (VList, VSet, VDict)):
+    if not isinstance(v, (VList, VSet, VDict, VBytes)):
         return
 
     def wb(child, parent=parent, slot=slot):
@@ -1160,9 +1160,17 @@ def as_set(ip, v):
             return None, None
         if 'enum_of' in v.ghost:
             return v.ghost['enum_of'], v.ek
+        # the set of the list's elements as a named array with a Skolem witness: S[x] <=> x == arr[w(x)], 0 <= w(x) < n
+        # (a lambda with an existential body is z3-only syntax and defeats pattern-based instantiation)
         x = z3.Const(ip.fresh_name('x'), v.ek.sort())
         j = z3.Int(ip.fresh_name('j'))
-        return z3.Lambda([x], z3.Exists([j], z3.And(0 <= j, j < v.n, z3.Select(v.arr, j) == x))), v.ek
+        S = z3.Const(ip.fresh_name('Sl'), z3.ArraySort(v.ek.sort(), z3.BoolSort()))
+        w = z3.Function(ip.fresh_name('wit'), v.ek.sort(), z3.IntSort())
+        ip.assume(z3.ForAll([j], z3.Implies(z3.And(0 <= j, j < v.n), z3.Select(S, z3.Select(v.arr, j))),
+                            patterns=[z3.Select(v.arr, j)]))
+        ip.assume(z3.ForAll([x], z3.Implies(z3.Select(S, x), z3.And(0 <= w(x), w(x) < v.n, z3.Select(v.arr, w(x)) == x)),
+                            patterns=[z3.Select(S, x)]))
+        return S, v.ek
     if isinstance(v, VTuple):
         if not v.items:
             return None, None
@@ -1418,7 +1426,8 @@ def get_attr(ip, obj, attr, node, fr):
         has(str)
         return VFunc('bound', f'str.{attr}', self_val=obj)
     if isinstance(obj, VBytes) or (isinstance(obj, VConst) and isinstance(obj.py, (bytes, bytearray))):
-        has(bytes)
+        # a bytes term held in a mutable container slot stands for a bytearray (defaultdict(bytearray), d[k].extend(..))
+        has(bytearray if getattr(obj, 'parent', None) is not None else bytes)
         return VFunc('bound', f'bytes.{attr}', self_val=obj)
     if isinstance(obj, VBool) or (isinstance(obj, VConst) and isinstance(obj.py, bool)):
         has(bool)
@@ -1585,9 +1594,25 @@ def call_builtin(ip, f, args, kwargs, node, fr):
 FUNCS = {}
 
 
+def _kwargs_guard(fn, what):
+    '''A model that never looks at keyword arguments must not be handed any: silently dropping one (enumerate(..,
+    start=n) was the case that exposed this) would make the encoding unsound.'''
+    import dis
+    if any(i.argval == 'kwargs' for i in dis.get_instructions(fn)) or what.startswith('opaque') or what in ('print',):
+        return fn
+
+    def guarded(*a):
+        kwargs = a[-3]
+        if kwargs:
+            raise EngineError(f'{what}: keyword argument(s) {sorted(kwargs)} are not modelled')
+        return fn(*a)
+    guarded.__name__ = fn.__name__
+    return guarded
+
+
 def builtin(name):
     def deco(fn):
-        FUNCS[name] = fn
+        FUNCS[name] = _kwargs_guard(fn, name)
         return fn
     return deco
 
@@ -1908,17 +1933,28 @@ def _sorted(ip, args, kwargs, node, fr):
     raise EngineError(f'sorted of {v!r}')
 
 
+def py_add(ip, a, b):
+    if isinstance(a, VConst) and isinstance(b, VConst):
+        return VConst(a.py + b.py)
+    return VInt(z3.simplify(int_term(a) + int_term(b)))
+
+
 @builtin('enumerate')
 def _enumerate(ip, args, kwargs, node, fr):
     v = resolve(ip, args[0])
+    if set(kwargs) - {'start'} or len(args) > 2:
+        raise EngineError('enumerate() with unexpected arguments')
+    start = resolve(ip, args[1] if len(args) > 1 else kwargs.get('start', VConst(0)))
+    if not is_intlike(start):
+        raise EngineError('enumerate() with a non-integer start')
     if isinstance(v, VTuple):
-        return VTuple(tuple(VTuple((VConst(i), x)) for i, x in enumerate(v.items)))
+        return VTuple(tuple(VTuple((py_add(ip, start, VConst(i)), x)) for i, x in enumerate(v.items)))
     if isinstance(v, VList):
         if v.ek is None:
             return VList(None, z3.IntVal(0), None)
         k = KTuple(KInt, v.ek)
         j = z3.Int(ip.fresh_name('j'))
-        arr = def_array(ip, j, k.sort().constructor(0)(j, z3.Select(v.arr, j)), 'enumerate')
+        arr = def_array(ip, j, k.sort().constructor(0)(int_term(start) + j, z3.Select(v.arr, j)), 'enumerate')
         return VList(arr, v.n, k)
     raise EngineError(f'enumerate of {v!r}')
 
@@ -2235,7 +2271,7 @@ METHODS = {}
 def method(tname, *names):
     def deco(fn):
         for n in names:
-            METHODS[(tname, n)] = fn
+            METHODS[(tname, n)] = _kwargs_guard(fn, f'{tname}.{n}')
         return fn
     return deco
 
@@ -2529,6 +2565,19 @@ def _d_update(ip, recv, args, kwargs, node, fr):
     recv.map = z3.Lambda([x], z3.If(z3.Select(o.dom, x), z3.Select(o.map, x), z3.Select(recv.map, x)))
     recv.dom = z3.SetUnion(recv.dom, o.dom)
     recv._writeback()
+    return VConst(None)
+
+
+@method('bytes', 'extend')
+def _by_extend(ip, recv, args, kwargs, node, fr):
+    '''bytearray.extend on a bytearray held in a container slot (d[k].extend(b)): the slot is rewritten'''
+    if not isinstance(recv, VBytes) or getattr(recv, 'parent', None) is None:
+        raise EngineError('extend on a bytes value that is not a bytearray slot of a container')
+    tb = KBytes.unwrap(resolve(ip, args[0]))
+    r = z3.Concat(recv.t, tb)
+    ip.assume(seq_len(r) == seq_len(recv.t) + seq_len(tb))
+    recv.t = r
+    recv.parent(recv)
     return VConst(None)
 
 
